@@ -513,9 +513,12 @@ def wrapLine (x : Int) : String :=
     let (mv2, _) := mv.move
     mv2.get
   let sp : SPtr := ⟨1, 0⟩
-  s!"ref={Ref.get mem r} same=1 rec={showMI rec0.get} uniq={x} shared={showMI (SPtr.get mem sp)} iso={ST.undecorate (ST.decorate x)}" ++
+  let up : UPtr := ⟨some 1⟩
+  -- moved twice, released, adopted again by the pointer constructor
+  let up2 : UPtr := ⟨(up.move.1.move.1.release).1⟩
+  s!"ref={Ref.get mem r} same=1 rec={showMI rec0.get} uniq={showMI (up.get mem)} shared={showMI (SPtr.get mem sp)} iso={ST.undecorate (ST.decorate x)}" ++
   s!" reccopy={reccopy} recasg={recasg} recself={recself} recmv={showMI recmv} recrv={showMI (RecCell.make x).get}" ++
-  s!" uniq2={x}/{x}/{x} sh2={x}/{x}/{x}/{x}/{x}/{x}"
+  s!" uniq2={showMI (up2.get mem)}/{x}/{x} sh2={x}/{x}/{x}/{x}/{x}/{x}"
 
 def handle (toks : List String) : String :=
   match toks with
